@@ -68,32 +68,60 @@ def managed_program(rng, thorough):
         # alter session overwriting none / some / all of the tracked fields (each fully)
         if fields and rng.chance(1, 2):
             lines.append("alter{")
-            mode = rng.choice(["none", "some", "all", "new"])
+            mode = rng.choice(["none", "some", "all", "new", "rewrite"])
             victims = [] if mode in ("none", "new") else (list(fields) if mode == "all" else [f for f in fields if rng.chance(1, 2)])
             for (st, n) in victims:
                 lines.append(f"goto {st}")
                 # cover the field fully, with a little slack on either side where there is room
                 lines.append(f"ex {hexb(rng.bytes(n))}")
                 fields.remove((st, n))
-            if mode in ("none", "new"):
+            if mode in ("none", "new", "rewrite"):
                 # write somewhere that holds no tracked field; possibly a new tracked field
                 free = [i for i in range(0, off - 12) if not any(s - 12 <= i < s + m for (s, m) in fields)]
                 if free:
                     at = rng.choice(free)
                     lines.append(f"goto {at}")
-                    if mode == "new":
+                    if mode in ("new", "rewrite"):
                         lines.append(f"ex {hexb(rng.bytes(8))}")
                         lines.append(f"rx @{rng.range(-2**40, 2**40)} 8 0 x86.8.2")
-                        fields.append((at, 8))
+                        if mode == "rewrite":
+                            # ... and replace the field the session has just written by plain bytes: it must be forgotten again
+                            if rng.chance(1, 2):
+                                lines.append(f"goto {rng.choice(free)}")
+                                lines.append(f"ex {hexb(rng.bytes(2))}")
+                            lines.append(f"goto {at}")
+                            lines.append(f"ex {hexb(rng.bytes(8))}")
+                        else:
+                            fields.append((at, 8))
                     else:
                         lines.append(f"ex {hexb(rng.bytes(3))}")
             lines.append("}alter")
             lines.append("buf")
+    meta = {"kind": "managed"}
+    if fields and rng.chance(1, 3):
+        # a session that overwrites tracked fields and then FAILS (duplicate global label): what it wrote stays in the buffer,
+        # so the fields it replaced must not be adjusted by later moves either
+        lines.append("alter{")
+        victims = [f for f in fields if rng.chance(2, 3)] or [fields[0]]
+        for (st, n) in victims:
+            lines.append(f"goto {st}")
+            lines.append(f"ex {hexb(rng.bytes(n))}")
+            fields.remove((st, n))
+        lines.append("gl 9")
+        meta["fail_at"] = len(lines)
+        lines.append("}alter")
+        lines.append("buf")
+        meta["victims"] = victims
+        meta["tracked"] = list(fields)
     # final growth so that everything moves once more
     emit(rng.choice([PAGE, 3 * PAGE]))
     lines.append("c")
     lines.append("buf")
-    return lines, {"kind": "managed"}
+    if "fail_at" in meta and rng.chance(1, 2):
+        emit(rng.choice([2 * PAGE, 5 * PAGE]))
+        lines.append("c")
+        lines.append("buf")
+    return lines, meta
 
 
 def error_program(rng):
@@ -111,6 +139,7 @@ def evaluator(p, res, meta):
     addr = None
     resolved = []
     last_commit = -1
+    snap = b""
     for idx, (req, a, _) in enumerate(res):
         ws = req.split()
         for w in a.split():
@@ -124,6 +153,30 @@ def evaluator(p, res, meta):
         if meta and meta["kind"] == "error":
             if ws[0] == "c" and not a.startswith("err Impossible"):
                 return ({"kind": "small-absolute-field-accepted"}, f"a {p[3].split()[-1]} absolute field cannot hold a mapping address but commit returned `{a}`")
+            continue
+        fail_at = meta.get("fail_at") if meta else None
+        if fail_at is not None and idx >= fail_at:
+            # the failing session and what follows it: its replacement bytes are not touched by later moves (the tracked fields that
+            # are left are compared with the model, which adjusts them)
+            if idx == fail_at:
+                if not a.startswith("err Duplicate"):
+                    return ({"kind": "unexpected-answer", "op": ws[0]}, f"the session defines a global label twice but `{ws[0]}` returned `{a}`")
+            elif ws[0] == "c" and a.startswith("err"):
+                return ({"kind": "unexpected-error", "op": ws[0]}, f"`{ws[0]}` after the failed session returned `{a}`")
+            elif ws[0] == "buf" and a.startswith("x"):
+                got = bytes.fromhex(a[1:])
+                if idx == fail_at + 1:
+                    snap = got
+                else:
+                    skip = set()
+                    for (st, n) in meta["tracked"]:
+                        skip.update(range(st, st + n))
+                    for o in range(len(snap)):
+                        if o not in skip and got[o] != snap[o]:
+                            vic = [v for v in meta["victims"] if v[0] <= o < v[0] + v[1]]
+                            return ({"kind": "replacement-touched-by-move" if vic else "non-field-byte"},
+                                    f"byte at offset {o} was {snap[o]:02x} after the (failed) session that overwrote the tracked field at {vic[0][0] if vic else '?'} "
+                                    f"and is {got[o]:02x} after a later move (buffer at {addr:#x})")
             continue
         if ws[0] in ("c", "}alter") and a.startswith("err"):
             return ({"kind": "unexpected-error", "op": ws[0]}, f"`{ws[0]}` returned `{a}`")
